@@ -48,6 +48,10 @@ package frontend
 //@   pure
 //@   ensures stable(result)
 //@   ensures isBool(den(b)) && den(result) == (den(b) == f1 ? den(i1) : den(i2))
+//@ contract iface API.Lookup2
+//@   pure
+//@   ensures stable(result) && result != nil
+//@   ensures isBool(den(b0)) && isBool(den(b1)) && den(result) == (den(b1) == f1 ? (den(b0) == f1 ? den(i3) : den(i2)) : (den(b0) == f1 ? den(i1) : den(i0)))
 //@ contract iface API.IsZero
 //@   pure
 //@   ensures stable(result)
